@@ -387,6 +387,7 @@ Variable ce : lambda -> bool -> cell -> M lambda.
 Variable cq : lambda -> cell -> N -> M lambda.
 
 Definition f_quote (l : lambda) (x : cell) : M lambda :=
+  if negb (cell_is_datum x) then fail E_OTHER else
   dom v <- maybe_put_cell_m x;
   ret (emit (emit (emit_op l OMovImmediate) v) VAcc).
 Definition f_store (l : lambda) (symbol : cell) : M lambda :=
@@ -474,7 +475,9 @@ Definition f_define (l : lambda) (e rest : cell) : M lambda :=
          if negb (Compile.is_nil r2) then fail E_OTHER else
          dom v <- lift (car_e r1);
          dom l1 <- ce l false v; ret (l1, target)
-     | CPair name _ => dom l1 <- f_lambda l e true; ret (l1, name)
+     | CPair name _ =>
+         if negb (Compile.is_symbol name) then fail E_OTHER else
+         dom l1 <- f_lambda l e true; ret (l1, name)
      | _ => fail E_OTHER
      end);
   if is_primitive_symbol symbol then fail E_OTHER else f_store l1 symbol.
@@ -548,6 +551,7 @@ Definition f_quasi (l : lambda) (e : cell) (depth : N) : M lambda :=
         let depth1 := if is_unq then depth - 1 else depth in
         let depth2 := if Datum.sym_is a QUASIQUOTE then depth1 + 1 else depth1 in
         dom (l1, count, tailc) <- f_elems depth2 e l 0;
+        if negb (cell_is_datum tailc) then fail E_OTHER else
         dom tv <- maybe_put_cell_m tailc;
         let l2 := emit (emit_op l1 OPushImmediate) tv in
         ret (f_conses count (N.to_nat count) 0 l2)
@@ -594,7 +598,8 @@ Hypothesis IHq : forall l e d, pres (cq l e d) (ext l).
 
 Lemma f_quote_ok l x : pres (f_quote l x) (ext l).
 Proof.
-  unfold f_quote. eapply pres_bind; [apply pres_maybe_put_cell_m|intros v Hv]. apply pres_ret.
+  unfold f_quote. destruct (negb (cell_is_datum x)); [apply pres_fail|].
+  eapply pres_bind; [apply pres_maybe_put_cell_m|intros v Hv]. apply pres_ret.
   apply (ext_emits l [VOp OMovImmediate; v; VAcc]). apply seg_movimm, Hv.
 Qed.
 
@@ -720,7 +725,8 @@ Proof.
   eapply pres_bind; [apply pres_lift|intros target _].
   eapply pres_bind with (Q := fun p => ext l (fst p)).
   - destruct target; try apply pres_fail.
-    + eapply pres_bind; [apply f_lambda_ok|intros l1 H1]. apply pres_ret. exact H1.
+    + destruct (negb (Compile.is_symbol target1)); [apply pres_fail|].
+      eapply pres_bind; [apply f_lambda_ok|intros l1 H1]. apply pres_ret. exact H1.
     + eapply pres_bind; [apply pres_lift|intros r2 _].
       destruct (negb (Compile.is_nil r2)); [apply pres_fail|].
       eapply pres_bind; [apply pres_lift|intros v _].
@@ -791,6 +797,7 @@ Proof.
     + eapply pres_bind; [apply pres_lift|intros d1 _].
       eapply pres_bind; [apply pres_lift|intros x _]. apply IHe.
     + eapply pres_bind; [apply f_elems_ok|intros [[l1 count] tailc] H1]. cbn [fst] in H1.
+      destruct (negb (cell_is_datum tailc)); [apply pres_fail|].
       eapply pres_bind; [apply pres_maybe_put_cell_m|intros tv Htv]. apply pres_ret.
       eapply ext_trans; [exact H1|]. eapply ext_trans; [|apply f_conses_ok].
       apply (ext_emits l1 [VOp OPushImmediate; tv]). apply seg_pushimm, Htv.
